@@ -35,6 +35,7 @@ import (
 	"go.uber.org/zap"
 
 	"github.com/mimiro-io/datahub/internal/conf"
+	"github.com/mimiro-io/datahub/internal/verifhook"
 )
 
 type qresult struct {
@@ -295,6 +296,7 @@ func (namespaceManager *NamespaceManager) AssertPrefixMappingForExpansion(uriExp
 		state := &NamespacesState{}
 		state.PrefixToExpansionMapping = namespaceManager.prefixToExpansionMapping
 		state.ExpansionToPrefixMapping = namespaceManager.expansionToPrefixMapping
+		verifhook.Point("ns.mutated", prefix)
 		err := namespaceManager.store.StoreObject(NamespacesIndex, "namespacestate", state)
 		if err != nil {
 			return "", err
@@ -1701,7 +1703,9 @@ func (s *Store) ExecuteTransaction(transaction *Transaction) error {
 		datasets[k] = dataset.(*Dataset)
 		s.MetaCtx.RegisterTransactionSink(k)
 
+		verifhook.Point("txn.lock.want", k)
 		dataset.(*Dataset).WriteLock.Lock()
+		verifhook.Point("txn.locked", k)
 		// release lock at end regardless
 		defer dataset.(*Dataset).WriteLock.Unlock()
 	}
@@ -1722,15 +1726,18 @@ func (s *Store) ExecuteTransaction(transaction *Transaction) error {
 		updateCountsPerDataset[k] = newItems
 	}
 
+	verifhook.Point("txn.built", "")
 	err := s.commitIDTxn()
 	if err != nil {
 		return err
 	}
+	verifhook.Point("txn.idcommitted", "")
 
 	err = txn.Commit()
 	if err != nil {
 		return err
 	}
+	verifhook.Point("txn.committed", "")
 
 	// update the txn counts
 	for k, v := range updateCountsPerDataset {
